@@ -1,4 +1,15 @@
 import Driver.WireSuite
+import Driver.ClientSuite
+import Driver.IdlSuite
+import Driver.FmtSuite
+import Driver.GenSuite
+import Driver.SerdeSuite
+import Driver.PoolSuite
+import Driver.ListenSuite
+import Driver.AddrSuite
+import Driver.ProxySuite
+import Driver.CertSuite
+import Driver.CliSuite
 
 open VV
 
@@ -14,11 +25,47 @@ def predFiles (f : String → String → String) (casesPath obsPath : String) : 
   for i in [0:cases.size] do
     IO.println (f cases[i]! (obs[i]?.getD ""))
 
+def lineFn : String → Option (String → String)
+  | "wire" => some wireLine
+  | "client" => some clientLine
+  | "idl" => some idlLine
+  | "fmt" => some fmtLine
+  | "gen" => some genLine
+  | "serde" => some serdeLine
+  | "pool" => some poolLine
+  | "listen" => some listenLine
+  | "addr" => some addrLine
+  | "proxy" => some proxyLine
+  | "cert" => some certLine
+  | "cli" => some cliLine
+  | _ => none
+
+def predFn : String → Option (String → String → String → String)
+  | "wire" => some wirePred
+  | "client" => some clientPred
+  | "idl" => some idlPred
+  | "fmt" => some fmtPred
+  | "gen" => some genPred
+  | "serde" => some serdePred
+  | "pool" => some poolPred
+  | "listen" => some listenPred
+  | "addr" => some addrPred
+  | "proxy" => some proxyPred
+  | "cert" => some certPred
+  | "cli" => some cliPred
+  | _ => none
+
 def main (args : List String) : IO UInt32 := do
   let stdin ← IO.getStdin
   match args with
-  | ["run", "wire"] => loop stdin wireLine; return 0
-  | ["pred", "wire", prop, casesPath, obsPath] => predFiles (wirePred prop) casesPath obsPath; return 0
+  | ["run", suite] =>
+    match lineFn suite with
+    | some f => loop stdin f; return 0
+    | none => IO.eprintln s!"unknown suite {suite}"; return 2
+  | ["pred", suite, prop, casesPath, obsPath] =>
+    match predFn suite with
+    | some f => predFiles (f prop) casesPath obsPath; return 0
+    | none => IO.eprintln s!"unknown suite {suite}"; return 2
   | _ =>
     IO.eprintln "usage: vmodel run <suite> < cases | vmodel pred <suite> <Cxx> <cases-file> <obs-file>"
     return 2
